@@ -38,6 +38,13 @@ func checkC05(w *World, r *Report) {
 	r.Rule("R05.5", "compile side cannot panic: in the functions reachable from the machine constructors (generated parser excluded) every index/slice expression, unchecked type assertion and explicit panic is discharged by a recognised guard pattern or a reviewed entry", 10)
 	r.guard("R05.5", func() { c05CompilePanics(w, r) })
 
+	r.Rule("R05.9", "building a machine terminates whatever was built before: the function-table mutex taken during name lookup is released on every path", 3)
+	r.guard("R05.9", func() {
+		if lockPairing(w, r, "R05.9", []string{"xpath", "xpath/grammars/expr", "xpath/grammars/leafref", "xpath/grammars/path_eval"}, "after one build that leaves through that path, every later build whose expression contains a function call blocks forever in mu.Lock()") == 0 {
+			panic(undecided{"no function takes a lock"})
+		}
+	})
+
 	r.Rule("R05.8", "no error is forgotten on the XPath side: in the xpath packages every error result bound to a variable is examined", 1)
 	r.guard("R05.8", func() {
 		errRule(w, r, "R05.8", []string{"xpath", "xpath/xutils", "xpath/grammars/expr", "xpath/grammars/leafref", "xpath/grammars/path_eval"}, nil)
